@@ -92,7 +92,15 @@ def nested(rng):
             # input that ends inside a token or a comment
             "function main() -> void { } // trailing comment, no newline", "//", "// only a comment", "function main() -> void { echo(1); } //",
             "function main() -> void { echo(\"unterminated", "function main() -> void { echo('c", "function main() -> void { echo(1.", "function main() -> void { echo(1); } /",
-            "function main() -> void { } \n// last line\n// and another without newline"]
+            "function main() -> void { } \n// last line\n// and another without newline",
+            # type-parameter bounds that refer to parameters: to themselves, to each other, to a later one
+            "class P { public constructor() -> P { } }\nclass H<T extends T> { public T item = new P(); public constructor() -> H<T> { } }\nfunction main() -> void { }",
+            "class P { public constructor() -> P { } }\nclass H<T extends T> { public constructor() -> H<T> { } public function put(T x) -> void { } "
+            "public function go() -> void { put(new P()); } }\nfunction main() -> void { H<P> h = new H<P>(); h.go(); }",
+            "class P { public constructor() -> P { } }\nclass H<T extends U, U extends T> { public T a = new P(); public U b = new P(); public constructor() -> H<T, U> { } }\n"
+            "function main() -> void { }",
+            "class P { public constructor() -> P { } }\nclass H<T extends U, U extends P> { public T a = new P(); public constructor() -> H<T, U> { } }\nfunction main() -> void { H<P, P> h = new H<P, P>(); }",
+            "class H<T extends H<T>> { public constructor() -> H<T> { } public function me(T x) -> T { return x; } }\nfunction main() -> void { }"]
 
 
 def classify(c):
@@ -117,6 +125,11 @@ def run(chk):
         seeds.append(lg.prog_src(lg.Gen(rng, nfuncs=rng.randint(1, 3)).program()))
         ops, draws = sc.gen_prog(rng, max_q=3, n_ops=6)
         seeds.append(sc.Prog(ops, draws).render(rng, ("direct", "func", "arrparam", "method"), True)[0])
+    # generic templates, bounded type parameters
+    from checks import gengen, c10
+    for i in range(3 if quick else 20):
+        seeds.append(gengen.gen(rng)[0])
+        seeds += ["\n".join(p) for p in c10.decl_graphs(rng)]
     inputs = []
     per = 25 if quick else 60
     for s in seeds:
